@@ -142,6 +142,50 @@ def summarise_kw(term):
     return None
 
 
+def _generator_as_comp(prog: Program, call):
+    """`_helper(a, b)` for a module-level generator function of the binding module whose body is one loop that yields exactly
+    once per element (`for i, v in enumerate(values): yield X if C else Y`, also as an if/else of two yields): the generator
+    expression it equals, with the arguments substituted -- a binder that moves its generator expression into such a helper
+    reads like the one that spells it out."""
+    if not (call[0] == "call" and call[1][0] == "ref" and call[1][1].startswith(MOD + ".") and not call[3]):
+        return None
+    fi = prog.functions.get(call[1][1])
+    if fi is None or fi.cls is not None or fi.node.decorator_list or len(call[2]) != len(fi.params):
+        return None
+    try:
+        ps = P.paths_of(prog, fi)
+    except AnalysisError:
+        return None
+    its, alts = set(), []
+    for p in ps:
+        loops = [e for e in p.events if e[0] == "loop"]
+        if len(loops) != 1 or p.exit[0] != "fall":
+            return None
+        its.add(loops[0][1])
+        ys = [e[1] for e in p.events if e[0] == "yield"]
+        if loops[0][2] == 0:
+            if ys:
+                return None
+            continue
+        if len(ys) != 1:
+            return None
+        alts.append((list(p.guards()), ys[0]))
+    if len(its) != 1 or not alts:
+        return None
+    it = next(iter(its))
+    if len(alts) == 1 and not alts[0][0]:
+        elt = alts[0][1]
+    elif len(alts) == 2 and len(alts[0][0]) == 1 and len(alts[1][0]) == 1 and alts[0][0][0][0] == alts[1][0][0][0] and alts[0][0][0][1] != alts[1][0][0][1]:
+        g = alts[0][0][0][0]
+        yes = alts[0][1] if alts[0][0][0][1] else alts[1][1]
+        no = alts[1][1] if alts[0][0][0][1] else alts[0][1]
+        elt = ("ifexp", g, yes, no)
+    else:
+        return None
+    comp = ("comp", "gen", elt, ((it, "_"),), ())
+    return P.substitute(comp, dict(zip(fi.params, call[2])))
+
+
 def binder_summaries(prog: Program, rep: Report):
     base = prog.cls(f"{MOD}.AbstractBinding")
     out = {}
@@ -158,6 +202,7 @@ def binder_summaries(prog: Program, rep: Report):
         if r[0] != "tuple" or len(r[1]) != 2:
             rep.undecided("R10.1", c.qualname, f.loc, "return value is not an (args, kwargs) pair: " + T.show(r)[:200])
             continue
+        r = T.rewrite(r, lambda x: _generator_as_comp(prog, x))
         pos = summarise_pos(r[1][0])
         kw = summarise_kw(r[1][1])
         kwt = r[1][1]
@@ -1094,13 +1139,16 @@ def r10_7(prog: Program, rep: Report):
                         continue
                     n_ref += 1
                     ctor = T.contains(m, lambda y: (y[0] == "attr" and y[2] in ("__init__", "__new__")) or (T.is_call_to(y, "builtins.getattr") and len(y[2]) >= 2 and y[2][1] in (("const", "__init__"), ("const", "__new__"))))
-                    if not ctor and not not_class and T.contains(m, lambda y: y == obj):
+                    # (the statement form: the callable itself is the fallback on the path where its constructor / __call__ was
+                    #  looked at and found to be no plain function)
+                    consulted = lambda names: any((not val) and T.is_call_to(a, "inspect.isfunction") and T.contains(a, lambda y: (y[0] == "attr" and y[2] in names) or (T.is_call_to(y, "builtins.getattr") and len(y[2]) >= 2 and y[2][1][0] == "const" and y[2][1][1] in names)) for a, val in atoms)  # noqa: E731
+                    if not ctor and not not_class and T.contains(m, lambda y: y == obj) and not consulted(("__init__", "__new__")):
                         by_class.append(T.show(m)[:60])
                     # ... and for an instance that is called through its class's __call__, the module of that method
                     is_class = any(val and T.is_call_to(a, "inspect.isclass") and a[2][:1] == (obj,) for a, val in atoms)
                     is_routine = any(val and T.is_call_to(a, "inspect.isroutine", "inspect.isfunction", "inspect.ismethod") and a[2][:1] == (obj,) for a, val in atoms)
                     via_call = T.contains(m, lambda y: (y[0] == "attr" and y[2] == "__call__") or (T.is_call_to(y, "builtins.getattr") and len(y[2]) >= 2 and y[2][1] == ("const", "__call__")))
-                    if not is_class and not is_routine and not via_call and T.contains(m, lambda y: y == obj):
+                    if not is_class and not is_routine and not via_call and T.contains(m, lambda y: y == obj) and not consulted(("__call__",)):
                         by_instance.append(T.show(m)[:60])
     if n_ref:
         rep.check(not by_class, "R10.7", f.qualname, f.loc, "for a class the string annotations belong to the module of its constructor", f"the module for a string annotation is read from the callable itself ({by_class[:1]}) also when it is a class: a class that inherits an annotated __init__ from a base in another module has 'Money' looked up in its own module -- bind(Savings) converts with the wrong class (or NameError) where wrap(Savings) and unmarshal(Savings, ...) use the base's", detail="string-annotation-carrier")
@@ -1131,6 +1179,14 @@ def run(prog: Program, rep: Report, tier: str):
         # startpos must equal nPO+nPK whenever *args is present, nPO for PO-only, None otherwise
         for seq, want in ((["PO", "PK", "VA"], 2), (["PK", "PK", "VA", "KO"], 2), (["VA"], 0), (["PO", "PO", "PK"], 2), (["PK", "KO"], None), (["PO", "PO", "PO", "VA", "VK"], 3)):
             got = startpos_of(facts, seq)
+            if got == "?":
+                # (the closed form could not be read off the code: run the loop itself on this kind sequence)
+                try:
+                    simres = FactorySim(prog).run(seq)
+                except AnalysisError:
+                    simres = None
+                if simres is not None:
+                    got = simres["startpos"]
             rep.check(got == want, "R10.2", f"{MOD}._get_binding", f.loc, f"startpos for kinds {seq} = {want}", f"startpos for kinds {seq} is {got}, must be {want}", detail="startpos-" + "".join(seq))
         rows = matrix(prog)
         check_rows(prog, rep, summaries, facts, rows)
